@@ -71,6 +71,73 @@ def _external(cmd, text, timeout_s):
         os.unlink(path)
 
 
+def ackermannize(fs):
+    """Replace uninterpreted applications by fresh constants + congruence constraints (equisatisfiable)."""
+    apps = {}
+    seen = set()
+
+    def walk(e):
+        if e.get_id() in seen:
+            return
+        seen.add(e.get_id())
+        if z3.is_app(e):
+            d = e.decl()
+            if d.kind() == z3.Z3_OP_UNINTERPRETED and e.num_args() > 0:
+                apps.setdefault(d.name(), {})[e.get_id()] = e
+            for ch in e.children():
+                walk(ch)
+    for f in fs:
+        walk(f)
+    if not apps:
+        return list(fs), []
+    subs = []
+    extra = []
+    for name, d in sorted(apps.items()):
+        items = list(d.values())
+        consts = [z3.Const(f"{name}#{i}", it.sort()) for i, it in enumerate(items)]
+        subs += list(zip(items, consts))
+        for i in range(len(items)):
+            for j in range(i + 1, len(items)):
+                eqargs = z3.And(*[a == b for a, b in zip(items[i].children(), items[j].children())])
+                extra.append(z3.Implies(eqargs, consts[i] == consts[j]))
+    # innermost-first substitution: repeat until no uninterpreted application is left
+    def sub(e):
+        for _ in range(6):
+            e2 = z3.substitute(e, *subs)
+            if e2.eq(e):
+                break
+            e = e2
+        return e
+    return [sub(f) for f in fs] + [sub(e) for e in extra], subs
+
+
+def _nlsat(pc, g, inputs, timeout_ms):
+    fs, subs = ackermannize(list(pc) + [z3.Not(g)])
+    try:
+        s = z3.Then(z3.Tactic("simplify"), z3.Tactic("purify-arith"), z3.Tactic("qfnra-nlsat")).solver()
+        s.set("timeout", timeout_ms)
+        s.add(*fs)
+        r = s.check()
+    except z3.Z3Exception:
+        return None
+    if r == z3.unsat:
+        return dict(status="discharged", backend="z3-5.1(ackermann+qfnra-nlsat)", model=None)
+    if r == z3.sat:
+        m = s.model()
+        ins = {}
+        for k, e in inputs.items():
+            e2 = e
+            if subs:
+                for _ in range(6):
+                    e3 = z3.substitute(e2, *subs)
+                    if e3.eq(e2):
+                        break
+                    e2 = e3
+            ins[k] = e2
+        return dict(status="refuted", backend="z3-5.1(ackermann+qfnra-nlsat)", model=model_dict(m, ins))
+    return None
+
+
 def discharge(pc, goal, inputs, timeout_ms=10000, fallbacks=True):
     """-> dict(status, backend, time_s, model)"""
     t0 = time.time()
@@ -78,11 +145,18 @@ def discharge(pc, goal, inputs, timeout_ms=10000, fallbacks=True):
     if z3.is_true(g):
         return dict(status="discharged", backend="z3-simplify", time_s=time.time() - t0, model=None)
     s = z3.Solver()
-    s.set("timeout", timeout_ms)
+    s.set("timeout", max(500, timeout_ms // 5))
     for p in pc:
         s.add(p)
     s.add(z3.Not(g))
     r = s.check()
+    if r == z3.unknown:
+        nl = _nlsat(pc, g, inputs, timeout_ms)
+        if nl is not None:
+            nl["time_s"] = time.time() - t0
+            return nl
+        s.set("timeout", timeout_ms)
+        r = s.check()
     if r == z3.unsat:
         return dict(status="discharged", backend="z3-5.1(api)", time_s=time.time() - t0, model=None)
     if r == z3.sat:
@@ -101,4 +175,9 @@ def discharge(pc, goal, inputs, timeout_ms=10000, fallbacks=True):
             if ans == "sat":
                 # no model extraction from the CLI: candidate only
                 return dict(status="refuted", backend=name, time_s=time.time() - t0, model={})
+    d = os.environ.get("PYCV_DUMP_UNDECIDED")
+    if d:
+        os.makedirs(d, exist_ok=True)
+        with open(os.path.join(d, f"vc_{abs(hash(str(g))) % 10**8}.smt2"), "w") as f:
+            f.write(_smtlib(pc, g))
     return dict(status="undecided", backend="z3-5.1(api)+cvc5+z3-4.8", time_s=time.time() - t0, model=None)
